@@ -226,7 +226,7 @@ class SimWorld:
             else:
                 pairs = [(self.labels.get(id(ev), self._proc_label(ev)), value)
                          for ev, value in result.items()]
-                self.log(name, "cond-", op["id"], tuple(sorted(pairs, key=repr)))
+                self.log(name, "cond-", op["id"], tuple(pairs))
         elif kind == "spawn":
             spec = op["proc"]
             proc = env.process(self.process(spec))
@@ -285,7 +285,7 @@ class SimWorld:
             else:
                 pairs = [(self.labels.get(id(ev), self._proc_label(ev)), value)
                          for ev, value in result.items()]
-                self.log(name, "cond-", op["id"], tuple(sorted(pairs, key=repr)))
+                self.log(name, "cond-", op["id"], tuple(pairs))
         elif kind in ("succeed", "fail", "spawn", "interrupt"):
             for _ in self.event_step(name, op):      # these never yield
                 raise RuntimeError("instantaneous op yielded")
@@ -301,7 +301,11 @@ class SimWorld:
         if setup is not None:
             setup(self)
         async with Scope() as outer:
-            async with self.env:
+            async with self.env as entered:
+                if entered is not self.env:
+                    self.monitor_violations.append((
+                        "environment-context", "`async with env as e` bound %r, not the "
+                        "environment" % (entered,)))
                 for spec in scenario.get("processes", ()):
                     if spec.get("native"):
                         task = outer.do(self.native(spec))
@@ -439,6 +443,11 @@ class SimWorld:
             self.log(name, "cancel", op["res"], op["id"], bool(request.triggered))
             self.on_event("cancel", op["res"], op["id"], None, name, None)
         event = self.release_of.pop(id(request), None)
+        if event is None and request.triggered:
+            self.monitor_violations.append((
+                "with-block-kept-slot", "%s left `with request` (%s) at t=%r with the request "
+                "granted, but it was neither released nor cancelled" % (name, op["id"],
+                                                                         self.env.now)))
         if event is not None:
             self.track(event, op["id"] + ".rel", op["res"], "release", name, op["id"])
             yield event
